@@ -50,13 +50,13 @@ def conv(m, text, starts, positioned=True):
     elif t is M.String:
         d["t"] = "str"
         d["v"] = ["<val>", str(m)]
-        d["x"] = (["#"] + list(m.brackets)) if m.brackets is not None else None
+        d["x"] = (["#"] + list(m.brackets)) if m.brackets is not None else []
     elif t is M.Bytes:
         d["t"] = "bytes"
         d["v"] = ["<val>", bytes(m).decode("latin-1")]
     elif t is M.FString:
         d["t"] = "fstr"
-        d["x"] = (["#"] + list(m.brackets)) if m.brackets is not None else None
+        d["x"] = (["#"] + list(m.brackets)) if m.brackets is not None else []
         d["is_t"] = bool(getattr(m, "is_tstring", False))
         d["ch"] = [conv(c, text, starts, positioned=False) for c in m]
     elif t is M.FComponent:
